@@ -60,7 +60,7 @@ func ruleC10(c *Ctx) {
 				loads = append(loads, in)
 			}
 		})
-		c.Guard(rule, fn, loads, "read r.mode", isUnlockCall, Need{Desc: "replica read lock held", Instr: isLockCall},
+		c.Guard(rule, fn, loads, "read r.mode", lockOrUnlock, needLock("replica read lock held"),
 			Need{Desc: "after the data write", Instr: func(in ssa.Instruction) bool { return len(dw) == 1 && in == dw[0] }})
 		if len(loads) == 0 {
 			c.Bad(rule, FnName(fn)+" | mode read", "", "WriteAt no longer reads r.mode", nil)
@@ -151,8 +151,8 @@ func ruleC11Refuse(rule string) ruleFn {
 			disk := "phi{$1 | replica.GenerateSnapshotDiskName($1)}"
 			data := "phi{$0.diskData[$1] | $0.diskData[replica.GenerateSnapshotDiskName($1)]}"
 			sites := append(CallsTo(fn, fRep+"markDiskAsRemoved"), CallsTo(fn, fRep+"processPrepareRemoveDisks")...)
-			c.Guard(rule, fn, sites, "mark removed / emit actions", isUnlockCall,
-				Need{Desc: "replica lock taken", Instr: isWLockCall},
+			c.Guard(rule, fn, sites, "mark removed / emit actions", lockOrUnlock,
+				needWLock("replica lock taken"),
 				atom("mode == RW", eqAtom(`"RW"`, "$0.mode")),
 				atom("disk is known", "has($0.diskData,$1)", "has($0.diskData,replica.GenerateSnapshotDiskName($1))"),
 				atom("not the head", neAtom(disk, "$0.info.Head")),
@@ -165,16 +165,16 @@ func ruleC11Refuse(rule string) ruleFn {
 		}
 		if fn := c.Anchor(rule, fRep+"RemoveDiffDisk"); fn != nil {
 			sites := append(CallsTo(fn, fRep+"removeDiskNode"), CallsTo(fn, fRep+"rmDisk")...)
-			c.Guard(rule, fn, sites, "remove disk", isUnlockCall,
-				Need{Desc: "replica lock taken", Instr: isWLockCall},
+			c.Guard(rule, fn, sites, "remove disk", lockOrUnlock,
+				needWLock("replica lock taken"),
 				atom("mode == RW", eqAtom(`"RW"`, "$0.mode")),
 				atom("not the head", neAtom("$0.info.Head", "$1")),
 				atom("not the latest snapshot", neAtom("$0.info.Parent", "$1")))
 		}
 		if fn := c.Anchor(rule, fRep+"ReplaceDisk"); fn != nil {
 			sites := append(CallsTo(fn, fRep+"hardlinkDisk"), CallsTo(fn, fRep+"removeDiskNode", fRep+"rmDisk")...)
-			c.Guard(rule, fn, sites, "replace disk", isUnlockCall,
-				Need{Desc: "replica lock taken", Instr: isWLockCall},
+			c.Guard(rule, fn, sites, "replace disk", lockOrUnlock,
+				needWLock("replica lock taken"),
 				atom("mode == RW", eqAtom(`"RW"`, "$0.mode")),
 				atom("target is not the head", neAtom("$0.info.Head", "$1")))
 		}
@@ -446,7 +446,7 @@ func ruleC16Repl(c *Ctx) {
 	sites = append(sites, tr...)
 	sites = append(sites, StoresTo(fn, "Info", "Size")...)
 	sites = append(sites, StoresTo(fn, "diffDisk", "location")...)
-	c.Guard(rule, fn, sites, "grow", isUnlockCall, atom("new size >= current size", grow), Need{Desc: "replica lock taken", Instr: isWLockCall})
+	c.Guard(rule, fn, sites, "grow", lockOrUnlock, atom("new size >= current size", grow), needWLock("replica lock taken"))
 	if len(tr) == 1 && callRender(R, tr[0]) == "syscall.Truncate("+fRep+"diskPath($0,"+fRep+"Chain($0)#0[*]),"+sz+")" {
 		c.OK(rule, FnName(fn)+" | every chain member truncated to the new size", c.P.InstrPos(tr[0]), "range over Chain()", false)
 	} else {
@@ -487,7 +487,7 @@ func ruleC16Repl(c *Ctx) {
 	c.Guard(rule, fn, okRets, "return success", nil,
 		Need{Desc: "size persisted (or zero-size no-op request)", Calls: []string{fRep + "encodeToFile"}, Atoms: []string{"+$1 -0 ==0"}})
 	if f := c.Anchor(rule, fSrv+"Resize"); f != nil {
-		c.Guard(rule, f, CallsTo(f, fRep+"Resize"), "replica resize", isUnlockCall, Need{Desc: "server write lock taken", Instr: isWLockCall}, atom("replica open", "+$0.r -nil !=0"))
+		c.Guard(rule, f, CallsTo(f, fRep+"Resize"), "replica resize", lockOrUnlock, needWLock("server write lock taken"), atom("replica open", "+$0.r -nil !=0"))
 	}
 	c.Floor(rule, 10)
 }
